@@ -12,30 +12,54 @@ from verif.specs import sx
 from verif.specs.sx import X
 
 LEVEL = 'other'
-EXPECTED_MIN = {'quick': 15, 'thorough': 19}
+EXPECTED_MIN = {'quick': 22, 'thorough': 30}
 EXPLANATION = ('PROVED (exact normal form; normalize / orthogonals / signed_angle used through contracts): inverse(world_to_joint(forward(q, qd))) returns q for a free link, a single '
                'slide and a single hinge (world-attached and under a free parent), every model parameter symbolic -- for the hinge the proof shows that signed_angle is called with '
                '(sin q, cos q) exactly (double-angle polynomials of the half-angle pair), and the axiom atan2(sin q, cos q) = q on (-pi, pi) closes it; joint velocities round-trip for '
-               'free links and single hinges; the (q, qd) returned by the spring and positional step are syntactically inverse(world_to_joint(x\', xd\')) of the poses they return.  '
-               'BOUNDED (not proof): multi-dof orthogonal stacks (Euler-angle extraction) on generated models.')
-TRUSTED = ['axiom: atan2(sin t, cos t) = t for t in (-pi, pi)', 'orthogonals contract (C09/orthogonals/frame): returns (b, c) completing a unit vector to a right-handed orthonormal frame -- '
+               'free links and single hinges; for the multi-dof stacks of the property (ss, sss, hh, hhh, sh, ssh; mutually orthogonal axes = the columns of R(p), either handedness; world-attached and under a free parent) every slide coordinate is returned exactly and every hinge coordinate is returned as signed_angle(sin q, cos q) or as arccos(clip(cos q, -1, 1)) * sign(sin q) -- the calls are read off the real trace and their ARGUMENTS are proved to be those polynomials of the half-angle pair, on the Euler chart cos q > 0; the (q, qd) returned by the spring and positional step are syntactically inverse(world_to_joint(x\', xd\')) of the poses they return.  '
+               'BOUNDED (not proof): the same round trip on generated models (random orthogonal stacks, float64).')
+TRUSTED = ['axiom: atan2(sin t, cos t) = t for t in (-pi, pi)', 'axiom: arccos(clip(cos t, -1, 1)) * sign(sin t) = t for t in (-pi, pi)', 'chart hint: sqrt(cos^2 q) = cos q for hinge coordinates of a stack (|q| <= 1.2 < pi/2, the range of the property)', 'orthogonals contract (C09/orthogonals/frame): returns (b, c) completing a unit vector to a right-handed orthonormal frame -- '
            'callers are verified for EVERY such frame (a, b, c) = columns of R(p), p an arbitrary unit quaternion', 'normalize contract (C09/normalize/contract_*)']
-ASSUMPTIONS = ['exact reals', 'slide coordinates with cos(q/2) > 0', 'multi-dof stacks only bounded; velocity round trip of prismatic / stacked joints is the documented upstream limitation (outside the claim)']
+ASSUMPTIONS = ['exact reals', 'slide coordinates with cos(q/2) > 0', 'stacks with a slide after a hinge, and velocity round trip of prismatic / stacked joints, are the documented upstream limitation (outside the claim); non-orthogonal stacks are not claimed']
 BOUNDED_RULE = 'generator models with orthogonal stacks x random q in [-1.2, 1.2]; non-trivial = distinct (model, state)'
 
 CUT = ('brax.math:normalize', 'brax.math:orthogonals', 'brax.math:signed_angle')
 
 
-def _frame_axes(A, ss):
-  """replace every hinge/slide axis generator by the first column of R(p) for a fresh unit quaternion p; returns {dof: (a, b, c)}"""
+def _frame_axes(A, ss, stack=False, left=False):
+  """replace every hinge/slide axis generator by the first column of R(p) for a fresh unit quaternion p; returns {dof: (a, b, c)}.
+  stack=True: the dofs of one link are mutually orthogonal -- dof k of the link gets column k of ONE frame R(p) per link (completion: the cyclically next columns)"""
   frames = {}
+  link_of, pos_in = {}, {}
+  d = 0
+  for li, t in enumerate(ss.concrete.link_types):
+    w = 6 if t == 'f' else int(t)
+    for k in range(w):
+      link_of[d + k], pos_in[d + k] = li, k
+    d += w
+  per_link = {}
   for d, kind in enumerate(ss.kinds):
     if kind == 'f':
       continue
-    p = A.arr('fr%d' % d, (4,))
-    A.unit(list(p))
-    R = sx.qmat([X(e, A) for e in p])
-    a, b, c = [[R[r][k].v for r in range(3)] for k in range(3)]
+    if stack:
+      li = link_of[d]
+      if li not in per_link:
+        pq = A.arr('fr%d' % li, (4,))
+        A.unit(list(pq))
+        Rm = sx.qmat([X(e, A) for e in pq])
+        per_link[li] = [[Rm[r][k].v for r in range(3)] for k in range(3)]
+      cols = per_link[li]
+      k = pos_in[d]
+      if left:          # left-handed stack: the third axis is MINUS the cross product of the first two (third column negated)
+        cols = [cols[0], cols[1], [A.neg(e) for e in cols[2]]]
+      a, b, c = cols[k], cols[(k + 1) % 3], cols[(k + 2) % 3]
+      if left:          # completion (a, b, c) must stay right-handed for the orthogonals contract: flip c
+        c = [A.neg(e) for e in c]
+    else:
+      p = A.arr('fr%d' % d, (4,))
+      A.unit(list(p))
+      R = sx.qmat([X(e, A) for e in p])
+      a, b, c = [[R[r][k].v for r in range(3)] for k in range(3)]
     if kind == 'h':
       ss.ang[d] = a
     else:
@@ -49,8 +73,8 @@ def _frame_axes(A, ss):
   return frames
 
 
-def roundtrip(word, mode, tiers):
-  tag = ('f+' if mode == 'free' else '') + (word or 'f')
+def roundtrip(word, mode, tiers, stack=False, left=False):
+  tag = ('f+' if mode == 'free' else '') + (word or 'f') + (',left-handed' if left else '')
   xml = physsys.xml_free() if word == '' else (physsys.xml_free_parent if mode == 'free' else physsys.xml_world_root)(word)
 
   def run():
@@ -59,12 +83,27 @@ def roundtrip(word, mode, tiers):
     A = RingAlg()
     sys = physsys.load(xml)
     ss = physsys.SymSys(A, sys)
-    frames = _frame_axes(A, ss)
+    frames = _frame_axes(A, ss, stack=stack, left=left)
+    if stack:
+      # any() over several axis rows at once (is_translational / is_both in link_to_joint_frame)
+      for kind in ('h', 's'):
+        rows = [d for d, k_ in enumerate(ss.kinds) if k_ == kind]
+        if rows:
+          A.hint_or([(frames[d][0][i], 'ne', 0) for d in rows for i in range(3)], True, 'some unit axis among the rows')
     for u in ss.unit_sets:
       if all(hasattr(e, 't') and len(e.t) == 1 for e in u):          # only plain generators (link rotations); axes are now polynomials
         A.unit(u)
     q, qd = ss.state()
     ss.slide_hints(q)
+    if stack:
+      # the Euler-angle chart of the property: hinge coordinates in [-1.2, 1.2], so cos q > 0 and sqrt(cos^2 q) = cos q
+      qi_ = 0
+      for t_ in sys.link_types:
+        if t_ != 'f':
+          for k_ in range(int(t_)):
+            c_, s_ = ss.half_angle(q[qi_ + k_])
+            A.sqrt_hint(A.sub(A.mul(c_, c_), A.mul(s_, s_)), 'hinge coordinate inside the Euler chart |q| <= 1.2 < pi/2: cos q > 0')
+        qi_ += 7 if t_ == 'f' else int(t_)
     sa_calls = []
 
     def h_orth(I, P, ins):
@@ -95,8 +134,34 @@ def roundtrip(word, mode, tiers):
         sa_calls.append((g, A.normal(num), A.normal(den)))
         out[b] = g
       return [out.reshape(tuple(P['batch']))]
-    with cut(*CUT):
-      I = Interp(A, cuts={'brax.math:normalize': cuts.normalize_ring, 'brax.math:orthogonals': h_orth, 'brax.math:signed_angle': h_sa})
+    # multi-dof stacks: the second Euler angle is  arccos(clip(c, -1, 1)) * sign(s).  clip, sign and safe_arccos are recorded as opaque operations of their (normal-form)
+    # arguments: the obligation is about WHAT they are called with; the axiom  arccos(clip(cos t)) * sign(sin t) = t  on (-pi, pi) closes it
+    ops = []
+
+    def rec(op):
+      def f(*args):
+        g = A.var('%s!%d' % (op, len(ops)))
+        ops.append((g, op, [a if isc(a) else A.normal(a) for a in args]))
+        return g
+      return f
+
+    def h_acos(I, P, ins):
+      x = I.lift(ins[0])
+      out = np.empty(x.shape, dtype=object)
+      for idx in (np.ndindex(*x.shape) if x.shape else [()]):
+        out[idx] = rec('acos')(x[idx])
+      return [out]
+    handlers = {'brax.math:normalize': cuts.normalize_ring, 'brax.math:orthogonals': h_orth, 'brax.math:signed_angle': h_sa}
+    targets = list(CUT)
+    if stack:
+      A._max, A._min, A._sign = rec('max'), rec('min'), rec('sign')
+      handlers['brax.math:safe_arccos'] = h_acos
+      targets.append('brax.math:safe_arccos')
+    with cut(*targets):
+      I = Interp(A, cuts=handlers)
+      # multi-dof stacks: kinematics.inverse computes the Euler-angle extraction also for pure slide stacks and discards it with a `where` on a concrete mask;
+      # operations the polynomial algebra cannot express (clip, arccos) are kept as lazy errors that only count if they reach an output
+      I.lazy_unsupported = stack
 
       def f(s, q_, qd_):
         x, xd = kinematics.forward(s, q_, qd_)
@@ -118,12 +183,28 @@ def roundtrip(word, mode, tiers):
         else:
           # the returned coordinate must BE the signed_angle output, called with (sin q, cos q) as double-angle polynomials of the half-angle pair
           hit = [sc for sc in sa_calls if A.is_zero(A.sub(q2[qi + k], sc[0]))]
-          if len(hit) != 1:
-            res.append(Result(REFUTED, 'hinge coordinate is not the output of one signed_angle call', replay={'reproduced': False}))
+          c, s = ss.half_angle(q[qi + k])
+          sin_q = A.mul(2, A.mul(s, c))
+          cos_q = A.sub(A.mul(c, c), A.mul(s, s))
+          pair = [(ga, gs) for ga in ops if ga[1] == 'acos' for gs in ops if gs[1] == 'sign' and A.is_zero(A.sub(q2[qi + k], A.mul(ga[0], gs[0])))] if len(hit) != 1 else []
+          if pair:
+            ga, gs = pair[0]
+            # unwrap  acos( min( max(c, -1), 1) )
+            arg = ga[2][0]
+            chain = []
+            for _ in range(2):
+              inner = [o for o in ops if o[1] in ('max', 'min') and not isc(arg) and A.is_zero(A.sub(arg, o[0]))]
+              if not inner:
+                break
+              chain.append((inner[0][1], [a_ for a_ in inner[0][2] if isc(a_)]))
+              arg = [a_ for a_ in inner[0][2] if not isc(a_)][0]
+            ok_clip = sorted(chain) == sorted([('max', [-1]), ('min', [1])]) or sorted((c_[0], [int(v) for v in c_[1]]) for c_ in chain) == [('max', [-1]), ('min', [1])]
+            if not ok_clip:
+              res.append(Result(REFUTED, 'the arccos argument is not clip(., -1, 1) of a polynomial: %s' % chain, replay={'reproduced': False}))
+            res.append(ring_equal(A, np.array([arg, gs[2][0]], dtype=object), np.array([cos_q, sin_q], dtype=object), name='theta = arccos(clip(cos q)) * sign(sin q)'))
+          elif len(hit) != 1:
+            res.append(Result(REFUTED, 'hinge coordinate is neither the output of one signed_angle call nor arccos(.)*sign(.)', replay={'reproduced': False}))
           else:
-            c, s = ss.half_angle(q[qi + k])
-            sin_q = A.mul(2, A.mul(s, c))
-            cos_q = A.sub(A.mul(c, c), A.mul(s, s))
             res.append(ring_equal(A, np.array([hit[0][1], hit[0][2]], dtype=object), np.array([sin_q, cos_q], dtype=object), name='signed_angle args = (sin q, cos q)'))
           if int(t) == 1:
             res.append(ring_equal(A, qd2[di + k:di + k + 1], qd[di + k:di + k + 1], name='hinge qd'))
@@ -381,6 +462,11 @@ def obligations(tier):
   Q, Th = ('quick', 'thorough'), ('thorough',)
   obs = [roundtrip('', 'root', Q), roundtrip('h', 'root', Q), roundtrip('s', 'root', Q), roundtrip('h', 'free', Q), roundtrip('s', 'free', Q),
          step_structure('spring'), step_structure('positional'), bounded(tier)]
+  # multi-dof stacks of the property's quantifier: one joint kind (ss, sss, hh, hhh) or slides followed by one hinge (sh, ssh), mutually orthogonal axes, either handedness
+  for w, mode, left, t in [('ss', 'root', False, Q), ('sss', 'root', False, Q), ('sss', 'root', True, Q), ('sh', 'root', False, Q), ('ssh', 'root', False, Q), ('hh', 'root', False, Q),
+                           ('hhh', 'root', False, Q), ('hhh', 'root', True, Q), ('ssh', 'root', True, Th), ('hh', 'root', True, Th), ('hh', 'free', False, Th), ('sh', 'free', False, Th),
+                           ('sss', 'free', True, Th), ('ssh', 'free', False, Th)]:
+    obs.append(roundtrip(w, mode, t, stack=True, left=left))
   for word, perm, signs, t in [('hh', (0, 1, 2), (1, 1, 1), Q), ('ss', (1, 2, 0), (1, -1, 1), Q), ('sh', (0, 1, 2), (1, 1, 1), Q), ('hs', (2, 0, 1), (-1, 1, 1), Q), ('hhh', (0, 1, 2), (1, 1, 1), Q),
                                 ('hhh', (1, 0, 2), (1, 1, 1), Q), ('sss', (0, 1, 2), (1, 1, -1), Q), ('ssh', (0, 1, 2), (1, 1, 1), Q), ('sh', (2, 1, 0), (1, -1, 1), Th), ('hh', (1, 0, 2), (-1, 1, 1), Th),
                                 ('shs', (0, 1, 2), (1, 1, 1), Th), ('hss', (0, 1, 2), (1, 1, 1), Th)]:
